@@ -69,6 +69,10 @@ M = [
     ('m42', 'C02', 'src/DHLLDV/DHLLDV_framework.py', "    if vls == 0.0:\n        vls = 0.01", "    if vls == 0.0:\n        vls = 0.0", 'zero line speed no longer replaced in slip_ratio'),
     ('m43', 'C04', 'src/DHLLDV/heterogeneous.py', None, None, 'sqrtcx small-factor breakpoint 1.8 -> 1.6 on one side only'),
     ('m44', 'C08', 'src/DHLLDV/DHLLDV_framework.py', None, None, 'lru_cache put on Cvs_Erhg (switch-blind, aliased dict)'),
+    ('m45', 'C10', 'src/DHLLDV/PipeObj.py', "            if result.converged and result.root >= qimin:", "            if result.converged:", 'a converged secant root left of qimin accepted again'),
+    ('m46', 'C10', 'src/DHLLDV/PipeObj.py', "        except IndexError:\n            pass    # the unbracketed search", "        except KeyError:\n            pass    # the unbracketed search", 'IndexError of a wandering secant search escapes again'),
+    ('m47', 'C10', 'src/DHLLDV/PipeObj.py', "            if head_tab < result.fun:", "            if head_tab > result.fun:", 'qimin: comparison with the best tabulated flow inverted'),
+    ('m48', 'C10', 'src/DHLLDV/PipeObj.py', "        if root is None and _head_gap(flow_list[-1]) > 0:", "        if root is None and _head_gap(flow_list[-1]) < 0:", 'bracketed fallback asked on the wrong sign'),
 ]
 
 
